@@ -249,7 +249,24 @@ func (m *Model) InheritedGuards(f *ssa.Function, includeGo bool, depth int) []Li
 			return nil
 		}
 		cur := map[string]Lit{}
+		// a caller that is itself called from one place only: its parameters read as the arguments
+		// of that call (`if notify { ... }` in a helper is `if wasLeader && hasCallback` at its site)
+		var sub map[string]*Sym
+		if h := cs.Caller; h.Parent() == nil {
+			if hs := m.callers[h]; len(hs) == 1 && !hs[0].IsGo && !hs[0].IsDef {
+				args := hs[0].Instr.Common().Args
+				sub = map[string]*Sym{}
+				for j, p := range h.Params {
+					if j < len(args) {
+						sub["param:"+p.Name()] = m.Sym.Of(args[j])
+					}
+				}
+			}
+		}
 		for _, l := range m.GuardsAt(cs.Instr) {
+			if sub != nil {
+				l.S = substSym(l.S, sub)
+			}
 			cur[l.String()] = l
 		}
 		for _, l := range m.InheritedGuards(cs.Caller, includeGo, depth+1) {
@@ -813,9 +830,14 @@ func (m *Model) resultPaths(l Lit) ([]map[string]Lit, bool) {
 			sub["param:"+p.Name()] = m.Sym.Of(call.Call.Args[i])
 		}
 	}
+	var curBlock *ssa.BasicBlock // the block whose return (or phi edge) is being judged
 	consistent := func(v ssa.Value) bool {
 		k, isC := v.(*ssa.Const)
 		if !isC {
+			// a value that cannot be nil is inconsistent with "result == nil"
+			if want == "nil" && m.knownNonNil(v, curBlock) {
+				return neg
+			}
 			return true
 		}
 		return (constString(k) == want) != neg
@@ -884,8 +906,10 @@ func (m *Model) resultPaths(l Lit) ([]map[string]Lit, bool) {
 			continue
 		}
 		v := returnValue(ret, idx)
+		curBlock = b
 		if phi, isPhi := v.(*ssa.Phi); isPhi && phi.Block() == b {
 			for i, e := range phi.Edges {
+				curBlock = b.Preds[i]
 				if !consistent(e) {
 					continue
 				}
@@ -1176,7 +1200,7 @@ func (m *Model) exploreImpl(b *ssa.BasicBlock, succ int, startAt ssa.Instruction
 								vals[j] = constString(k)
 							} else if av, ok := m.assumedValue(rv); ok {
 								vals[j] = fmt.Sprint(av)
-							} else if definitelyNonNil(rv) {
+							} else if m.knownNonNil(rv, x) {
 								vals[j] = "!nil" // differs from the constant nil in every comparison
 							} else if ph, isPhi := rv.(*ssa.Phi); isPhi && ph.Block() == x && cameFrom != nil {
 								// the value returned along the edge this path took
@@ -1548,4 +1572,27 @@ func (m *Model) loopCounterBound(l Lit) (trips int64, ok bool) {
 		return 0, true
 	}
 	return (limit - start + step - 1) / step, true
+}
+
+
+// knownNonNil: the value cannot be nil where it is returned: an allocation, a call documented
+// never to return nil (fmt.Errorf, errors.New), or ctx.Err() evaluated in the branch of a select
+// that received from ctx.Done() (the context contract: Err is non-nil once Done is closed).
+func (m *Model) knownNonNil(v ssa.Value, b *ssa.BasicBlock) bool {
+	if definitelyNonNil(v) {
+		return true
+	}
+	call, ok := v.(*ssa.Call)
+	if !ok || !call.Call.IsInvoke() || call.Call.Method.Name() != "Err" || !isNamed(call.Call.Value.Type(), "context", "Context") || b == nil {
+		return false
+	}
+	ctxSym := m.Sym.Of(call.Call.Value).String()
+	for _, l := range m.Guards(b) {
+		if sel, k, ok := selectCaseOf(l); ok && l.Truth && k < len(sel.States) {
+			if s := m.Sym.Of(sel.States[k].Chan); s.Op == "invoke" && strings.HasSuffix(s.Name, "Context.Done") && len(s.Args) == 1 && s.Args[0].String() == ctxSym {
+				return true
+			}
+		}
+	}
+	return false
 }
